@@ -373,7 +373,7 @@ func (m *collection) ExecuteBatch(bIn Batch,
 	waitDirtyIncomingCh := m.waitDirtyIncomingCh
 	m.waitDirtyIncomingCh = nil
 
-	verifTrace("exec.push", m)
+	verifTrace("exec.push", m, b)
 	m.m.Unlock()
 
 	prevStackDirtyTop.Close()
